@@ -17,7 +17,7 @@ def runClone (j : Json) : Json :=
   mkObj [("id", fld j "id"),
          ("model", mkObj [("out", .str (match merr with | none => "ok" | some e => e.name)), ("post", gOut (freezeG m)), ("w", toJson mw)]),
          ("mon", boolsOut (if implOk then
-            [("hierarchy", cloneHierarchyB pre post w' sel roots), ("links", cloneLinksB pre post w sel),
+            [("hierarchy", !rootsIndependentB pre roots || cloneHierarchyB pre post w' sel roots), ("links", cloneLinksB pre post w sel),
              ("sourceFrame", sourceFrameB pre post w), ("outsideFrame", outsideFrameB pre post w),
              ("resultWF", (wfClauses post).all (·.2) && ownerOkB post && uniqueIdsB post)]
            else [("accepted", false)]))]
